@@ -114,7 +114,9 @@ fn dump(node: &Node, chan: ChannelId, it: &mut Intern, seen: &HashMap<(Txid, Txi
 }
 
 thread_local! { /// 0 = channel set-up and splice negotiation, 1 = everything after the splice transaction exists
-	static PHASE: std::cell::Cell<u8> = std::cell::Cell::new(0); }
+	static PHASE: std::cell::Cell<u8> = std::cell::Cell::new(0);
+	/// the plan of the running scenario (appended to the report of a panic of the real code)
+	static PLAN: std::cell::RefCell<String> = std::cell::RefCell::new(String::new()); }
 
 pub struct Out { pub lines: Vec<(String, Option<String>, String)>, pub oracle: Vec<String>, pub classes: Vec<String> }
 
@@ -154,6 +156,7 @@ pub fn scenario(seed: u64, index: u64) -> Result<Out, String> {
 	let aimed_before = index % 5 == 1;
 	let plan = format!("[seed {} #{}: capacity {} sat, {} sat pushed to node 1, node {} splices {} (left pending), up to {} HTLC(s) before / {} during the pending splice (the aimed one: {} sat from node 0, routed {} the splice negotiation), splice {} before the revoked commitment confirms]",
 		seed, index, cap, push, splicer, if splice_out { "out 10000 sat" } else { "in 100000 sat" }, n_before, n_during, htlc_sat, if aimed_before { "BEFORE" } else { "after" }, format!("{}{}{}", match mode { 0 => "confirms and LOCKS", 1 => "stays UNCONFIRMED", _ => "CONFIRMS but is NOT locked" }, if restart { "; victim RESTARTED before the cheat" } else { "" }, if rbf { "; an RBF candidate of the splice is negotiated too (two pending scopes), the RBF is what confirms" } else { "" }));
+	PLAN.with(|p| *p.borrow_mut() = plan.clone());
 	if std::env::var("C06_DEBUG").is_ok() { eprintln!("{}", plan); }
 	let (_, _, chan, funding_tx) = create_announced_chan_between_nodes_with_value(&nodes, 0, 1, cap, push * 1000);
 	let first_funding = funding_tx.compute_txid();
@@ -337,7 +340,7 @@ pub fn run(rec: &mut Rec, rng: &mut Rng, thorough: bool, scale: u64) {
 			// exists for it; not a C06 verdict: discarded and counted (reported as an observation)
 			Err(p) if PHASE.with(|c| c.get()) == 0 && p.starts_with("assertion `left == right` failed") && LAST_PANIC_AT.lock().unwrap().contains("/ln/channel.rs:") => {
 				rec.discarded += 1; *rec.classes.entry("discarded:debug_assert in ln/channel.rs (splice validation) while the splice is negotiated".into()).or_insert(0) += 1; },
-			Err(p) => rec.oracle_fail(format!("scope scenario {} (seed {}) panicked at {}: {}", k, s, LAST_PANIC_AT.lock().unwrap(), p.replace('\n', " ").chars().take(400).collect::<String>())),
+			Err(p) => rec.oracle_fail(format!("scope scenario {} (seed {}) panicked at {}: {} {}", k, s, LAST_PANIC_AT.lock().unwrap(), p.replace('\n', " ").chars().take(400).collect::<String>(), PLAN.with(|p| p.borrow().clone()))),
 		}
 	}
 	rec.notes.insert("rule".into(), "one scenario = one real 2-node channel with a pending splice (in / out, by either side), HTLCs routed before and during it, the cheater's commitment captured on the locked funding (the splice after it locked, or the original while the splice is pending), revoked and confirmed; distinct = distinct sdump / sconfirm lines".into());
